@@ -115,6 +115,12 @@ var rR3 = RuleRef{Name: "R3", Doc: "single-result type assertions cannot fail: o
 				return namedOf(fa.X.Type()) + "." + fieldName(fa)
 			}
 		}
+		// m.deadlines(): an accessor that only returns the map field
+		if call, ok := recv.(*ssa.Call); ok && len(call.Call.Args) == 1 {
+			if f, isG := thinGetter(callee(call)); isG {
+				return namedOf(call.Call.Args[0].Type()) + "." + f
+			}
+		}
 		return ""
 	}
 	for _, fn := range c.P.allFuncs(firstPartyPkgs...) {
